@@ -136,7 +136,7 @@ class JsonVariantConst : public detail::VariantTag,
     if (key.template is<size_t>())
       return operator[](key.template as<size_t>());
     else
-      return operator[](key.template as<const char*>());
+      return operator[](key.template as<JsonString>());
   }
 
   // DEPRECATED: use obj[key].is<T>() instead
@@ -165,7 +165,7 @@ class JsonVariantConst : public detail::VariantTag,
   ARDUINOJSON_DEPRECATED("use var[key].is<T>() instead")
   detail::enable_if_t<detail::IsVariant<TVariant>::value, bool> containsKey(
       const TVariant& key) const {
-    return containsKey(key.template as<const char*>());
+    return containsKey(key.template as<JsonString>());
   }
 
   // DEPRECATED: always returns zero
